@@ -74,7 +74,7 @@ type verifC35Fake struct {
 	files         map[backend.Handle][]byte
 	op            string // operation under test; only its attempts consume the script
 	script        string
-	tail          byte // 'O' or 'B'
+	tail          byte // 'O', 'B' or 'X'
 	given         []byte
 	removeCalls   int
 }
@@ -492,7 +492,7 @@ func TestVerif_C35(t *testing.T) {
 		defer VerifC35Real(t, r)
 	}
 	maxLen := vh.Pick(r, 4, 6)
-	r.Rule(fmt.Sprintf("all inner-backend answer sequences of length <= %d per operation (Save/Load/List/Stat/Remove) x tail {all-ok, all-fail} x HasFlakyErrors x HasAtomicReplace (Save) x budget {10ns, 15m} through the real retry.Backend on virtual time; non-trivial = the operation was attempted more than once (a retry or a wrongly repeated permanent error happened)", maxLen))
+	r.Rule(fmt.Sprintf("all inner-backend answer sequences of length <= %d per operation (Save/Load/List/Stat/Remove) x tail {all-ok, all-fail, all-permanent} x HasFlakyErrors x HasAtomicReplace (Save) x budget {10ns, 15m} through the real retry.Backend on virtual time; non-trivial = the operation was attempted more than once (a retry or a wrongly repeated permanent error happened)", maxLen))
 	r.Assume("the cleanup Remove issued by a failed Save succeeds", "a backend with atomic replace never exposes a partial file", "back-off jitter only influences the number of attempts in the all-fail tail, which the oracle ignores")
 
 	var cfgs []verifC35Cfg
@@ -536,7 +536,11 @@ func TestVerif_C35(t *testing.T) {
 			seqs := groups[p]
 			synctest.Test(t, func(t *testing.T) {
 				for _, seq := range seqs {
-					for _, tail := range []byte{'O', 'B'} {
+					tails := []byte{'O', 'B'}
+					if strings.ContainsRune(cfg.alphabet, 'X') {
+						tails = append(tails, 'X') // every further answer is the permanent error
+					}
+					for _, tail := range tails {
 						c := verifC35Case{cfg: cfg, script: seq, tail: tail}
 						var fails []string
 						var outcome string
